@@ -878,7 +878,7 @@ def write_layouts(chk, root):
                     os.link(os.path.join(d, 't%d.py' % to), p)
             return where
 
-        seen = []
+        seen, repeated = [], []
         for oi, o in enumerate(orders):
             d = os.path.join(root, 'w%d_%d' % (li, oi))
             where = build(d)
@@ -893,6 +893,16 @@ def write_layouts(chk, root):
             # nothing may be left that the layout does not know (a file made through a dangling link is `where` of its identity)
             stray = sorted(fn for fn in os.listdir(d) if fn not in ['t%d.py' % k for k in range(n)] + ['elsewhere'])
             seen.append((ok, contents, stray, err))
+            # the same run once more, the targets in the other order (theorem C20_write_files_repeatable): it ends the same way and
+            # leaves every file as the first run left it
+            try:
+                gbase.write_files([(os.path.join(d, 't%d.py' % k), texts[k]) for k in orders[1 - oi]])
+                ok2 = True
+            except EnvironmentError:
+                ok2 = False
+            again = dict((i, open(p).read() if os.path.isfile(p) else None) for i, p in sorted(where.items()))
+            if (ok2, again) != (ok, contents):
+                repeated.append({'first': {'ok': ok, 'files': contents}, 'second': {'ok': ok2, 'files': again}, 'order': o})
             shutil.rmtree(d, ignore_errors=True)
         casej = {'targets': [{'name': 't%d.py' % k, 'is': kind, 'link_to': None if to is None else 't%d.py' % to} for k, (kind, to) in enumerate(spec)],
                  'orders': orders}
@@ -900,6 +910,8 @@ def write_layouts(chk, root):
         chk.bump('write-layout: ' + ('written' if seen[0][0] else 'refused'))
         for kind, _ in spec:
             chk.bump('write-layout target: ' + kind)
+        if repeated:
+            chk.property_violation(casej, dict({'what': 'the same run repeated in the same output directory ends differently or leaves other files'}, **repeated[0]))
         if seen[0][:3] != seen[1][:3]:
             chk.property_violation(casej, {'what': 'what write_files leaves depends on the order of the targets',
                                            'first': {'ok': seen[0][0], 'files': seen[0][1], 'stray': seen[0][2], 'error': seen[0][3]},
